@@ -316,7 +316,7 @@ def search(ctx, rng, budget):
 def run(ctx):
     rng = np.random.default_rng(ctx.seed)
     # 1. theorems
-    pr = vlib.coq_props('C06', extra_targets=['model/SymmetryQ.vo'])
+    pr = vlib.coq_props('C06', extra_targets=['model/SymmetryQ.vo'], translators=['symmetry_src'])
     ctx.cov.update(obligations=len(pr['theorems']), discharged=pr['discharged'],
                    theorems=pr['theorems'], axioms=pr['axioms'],
                    checker_cmd='make -C /verif/coq props/C06.vo (coqc 8.16.1, full .vo build) + Print Assumptions',
